@@ -90,6 +90,37 @@ pub fn kill_count() -> u64 {
     KILL_COUNT.load(Ordering::SeqCst)
 }
 
+/// Returns whether kill points are configured at all.
+pub fn kill_active() -> bool {
+    if !KILL_ENABLED.load(Ordering::SeqCst) {
+        return false
+    }
+    let conf = kill_conf();
+    conf.at.is_some() || conf.trace.is_some()
+}
+
+/// Emulates the intermediate states of `fs::write(path, contents)`.
+///
+/// `fs::write` truncates the file and then writes the content. When kill
+/// points are active, this function produces these intermediate states
+/// explicitly (empty file, half the content) with a kill point at each.
+/// The caller performs the real write afterwards, so the final state is
+/// unchanged.
+pub fn kill_points_for_write(
+    path: &std::path::Path, contents: &[u8], label: &'static str
+) {
+    if !kill_active() {
+        return
+    }
+    kill_point(label);
+    if let Ok(mut file) = std::fs::File::create(path) {
+        kill_point(label);
+        let _ = file.write_all(&contents[..contents.len() / 2]);
+        let _ = file.flush();
+        kill_point(label);
+    }
+}
+
 /// A point at which the process may be killed.
 ///
 /// Points are numbered from 1. If `ROUTINATOR_VERIF_KILL_AT` equals the
